@@ -283,7 +283,9 @@ class Normalizer:
         return v
 
     # ------------------------------------------------------------------ procedure helpers
-    def block_of(self, fd: FD, sub: Dict[str, ast.AST], result: Optional[str], at) -> Optional[List[ast.stmt]]:
+    def block_of(self, fd: FD, sub: Dict[str, ast.AST], result: Optional[str], at, tail: bool = False) -> Optional[List[ast.stmt]]:
+        """tail=True: the call is the operand of a `return` statement of the caller - the helper's own `return` statements are
+        kept as they are (they return from the caller, which is exactly what `return helper(..)` did)"""
         self.counter += 1
         tag = f"__i{self.counter}"
         pre: List[ast.stmt] = []
@@ -319,6 +321,9 @@ class Normalizer:
         def conv(stmts) -> Tuple[List[ast.stmt], bool]:
             out: List[ast.stmt] = []
             for i, st in enumerate(stmts):
+                if isinstance(st, ast.Return) and tail:
+                    out.append(st)
+                    return out, True
                 if isinstance(st, ast.Return):
                     if result and st.value is not None:
                         out.append(ast.Assign(targets=[ast.Name(id=result, ctx=ast.Store())], value=st.value))
@@ -337,7 +342,7 @@ class Normalizer:
                     out.append(ast.If(test=st.test, body=b or [ast.Pass()], orelse=e))
                     continue
                 if isinstance(st, (ast.For, ast.While)):
-                    if any(isinstance(n, ast.Return) for n in ast.walk(st)):
+                    if any(isinstance(n, ast.Return) for n in ast.walk(st)) and not tail:
                         raise Unsupported('return inside loop')
                     out.append(st)
                     continue
@@ -352,7 +357,7 @@ class Normalizer:
         try:
             # falling off the end returns None: made explicit, so that it is assigned only on the paths that really fall
             # through (a trailing `result = None` after the block would overwrite the values of the returning paths)
-            new_body, term = conv(body + ([ast.Return(value=None)] if result else []))
+            new_body, term = conv(body + ([ast.Return(value=None)] if (result or tail) else []))
         except Unsupported:
             return None
         full = {}
@@ -392,6 +397,7 @@ class Normalizer:
                 break
         self._constants()
         self._local_constants()
+        self._beta_reduce()
         self._drop_folded()
 
     def _drop_folded(self):
@@ -497,16 +503,20 @@ class Normalizer:
                     if isinstance(sub_body, list) and sub_body and isinstance(sub_body[0], ast.stmt) and not isinstance(st, (ast.FunctionDef, ast.ClassDef)):
                         setattr(st, fld, stmt_pass(sub_body))
                 call, result = None, None
+                tail_return = False
                 if isinstance(st, ast.Expr) and isinstance(st.value, ast.Call):
                     call = st.value
                 elif isinstance(st, ast.Assign) and len(st.targets) == 1 and isinstance(st.targets[0], ast.Name) and isinstance(st.value, ast.Call):
                     call, result = st.value, st.targets[0].id
+                elif isinstance(st, ast.Return) and isinstance(st.value, ast.Call):
+                    # `return helper(..)`: spliced as `__ret = <helper body>; return __ret`
+                    call, result, tail_return = st.value, None, True
                 if call is not None:
                     r = self.resolve(call, modname, cls, self_name)
                     if r is not None and r[0].qual in self.candidates and r[0].node is not fn and self.value_of(r[0]) is None:
                         fd, recv = r
                         sub = self._bind(call, fd, recv)
-                        blk = self.block_of(fd, sub, result, st) if sub is not None else None
+                        blk = self.block_of(fd, sub, result, st, tail=tail_return) if sub is not None else None
                         if blk is not None:
                             out.extend(blk)
                             changed = True
@@ -518,6 +528,33 @@ class Normalizer:
         fn.body = stmt_pass(fn.body)
         expr_pass(fn)
         return changed
+
+    def _beta_reduce(self):
+        """`(lambda x: E)(a)` -> E[x := a]: appears when a helper that takes a callback was folded and the caller passed a
+        lambda; only for positional parameters without defaults, and arguments that are names / attribute paths / constants
+        or used at most once in E (no duplicated evaluation)"""
+        me = self
+
+        class T(ast.NodeTransformer):
+            def visit_Call(self_, c):
+                self_.generic_visit(c)
+                f = c.func
+                if isinstance(f, ast.Lambda) and not c.keywords and not f.args.vararg and not f.args.kwarg and not f.args.kwonlyargs \
+                        and not f.args.defaults and len(f.args.args) == len(c.args) and not any(isinstance(a, ast.Starred) for a in c.args):
+                    names = [a.arg for a in f.args.args]
+                    for nm, a in zip(names, c.args):
+                        simple = isinstance(a, (ast.Name, ast.Constant)) or (isinstance(a, ast.Attribute) and isinstance(a.value, ast.Name))
+                        uses = sum(1 for n in ast.walk(f.body) if isinstance(n, ast.Name) and n.id == nm)
+                        if not simple and uses > 1:
+                            return c
+                    new = _Subst(dict(zip(names, c.args))).visit(copy.deepcopy(f.body))
+                    for x in ast.walk(new):
+                        ast.copy_location(x, c)
+                    me.log.append("beta-reduced an immediately applied lambda")
+                    return new
+                return c
+        for tree in self.trees.values():
+            T().visit(tree)
 
     def _kw_by_name(self, c: ast.Call):
         """`obj.method(a=.., b=..)` on a receiver that cannot be resolved syntactically: when every package method of that name
@@ -602,7 +639,9 @@ class Normalizer:
             for st in tree.body:
                 if isinstance(st, (ast.Assign, ast.AnnAssign)):
                     tg = st.targets if isinstance(st, ast.Assign) else [st.target]
-                    if len(tg) == 1 and isinstance(tg[0], ast.Name) and st.value is not None and tg[0].id not in known and _const_like(st.value):
+                    # only immutable values: folding `_ALL_ROWS = []` into `self.rows = _ALL_ROWS` would hide that every ledger
+                    # shares one list
+                    if len(tg) == 1 and isinstance(tg[0], ast.Name) and st.value is not None and tg[0].id not in known and _immutable_const(st.value):
                         consts[tg[0].id] = st.value
             if not consts or not self.base['functions']:
                 continue
